@@ -25,7 +25,7 @@ func c02(args []string) int {
 		L = 3
 	}
 	nExh := gen.NClassStrings(L)
-	nMeta := f.N(150000, 3000000)
+	nMeta := f.N(400000, 10000000)
 	total := nExh + nMeta
 	var hits [9]map[string]int
 	x := &gen.Exec{}
@@ -254,7 +254,7 @@ func c02floats(args []string) int {
 	out.Count("float32_special", nspecial)
 	out.Count("float32_exponent_form", nexp)
 	// float64 random patterns
-	n64 := f.N(1<<18, 1<<24)
+	n64 := f.N(1<<19, 1<<26)
 	r := rng.New(f.Seed, 0xf64, uint64(f.Shard))
 	var n64exp int64
 	for i := 0; i < n64; i++ {
